@@ -165,6 +165,8 @@ struct State {
     pct_low: u64,
     live: usize,
     passthrough: bool,
+    os_handles: Vec<Option<std::thread::JoinHandle<()>>>,
+    exiting: Vec<usize>,
 }
 
 pub struct Sim {
@@ -405,6 +407,12 @@ impl Sim {
             Call::Step => {}
             Call::Spin => {
                 st.threads[me].status = Status::Yielded;
+                // PCT: a yield is a priority change point, otherwise two high-priority spinners
+                // ping-pong and starve the thread they are waiting for.
+                if matches!(st.cfg.strategy, Strategy::Pct { .. }) && st.replay_map.is_none() {
+                    st.pct_low = st.pct_low.saturating_sub(1);
+                    st.threads[me].prio = st.pct_low;
+                }
             }
             Call::Block => st.threads[me].status = Status::Blocked,
             Call::BlockUntil(t) => {
@@ -472,6 +480,51 @@ impl Sim {
         } else if st.threads[me].status == Status::Yielded {
             st.threads[me].status = Status::Runnable;
         }
+    }
+
+    /// Controller side of a thread's end: account the step, wake joiners, pass the baton on.
+    fn finish_and_handoff(&self, st: &mut State, me: usize) {
+        if st.threads[me].status == Status::Finished {
+            return;
+        }
+        if st.aborted.is_some() {
+            st.threads[me].status = Status::Finished;
+            st.live -= 1;
+            return;
+        }
+        st.steps += 1;
+        st.threads[me].calls += 1;
+        let step = st.steps;
+        st.hash = fnv(fnv(fnv(st.hash, me as u64), 0), str_hash("finish"));
+        if st.cfg.record_trace {
+            st.trace.push(TraceEv { step, tid: me as u32, op: "finish", file: "", line: 0 });
+        }
+        st.threads[me].status = Status::Finished;
+        st.live -= 1;
+        for t in st.threads.iter_mut() {
+            if matches!(t.status, Status::Blocked | Status::BlockedUntil(_)) {
+                t.status = Status::Runnable;
+                t.timed_out = false;
+            }
+        }
+        if !st.ensure_candidates() {
+            if st.live > 0 {
+                st.aborted = Some(End::Deadlock);
+                self.release_all(st);
+            }
+            return;
+        }
+        let cands = st.candidates();
+        let next = st.choose(me, &cands, false);
+        st.switches += 1;
+        st.consecutive = 0;
+        for (i, t) in st.threads.iter_mut().enumerate() {
+            if i != next && t.status == Status::Yielded {
+                t.status = Status::Runnable;
+            }
+        }
+        st.current = next;
+        st.threads[next].cv.notify_one();
     }
 
     fn release_all(&self, st: &mut State) {
@@ -653,7 +706,8 @@ fn start_thread(sim: &Arc<Sim>, name: &str, f: Box<dyn FnOnce() + Send + 'static
     }
     let sim2 = sim.clone();
     let tname = name.to_string();
-    std::thread::Builder::new()
+    let sim3 = sim.clone();
+    let h = std::thread::Builder::new()
         .name(format!("sim-{}", name))
         .stack_size(1 << 20)
         .spawn(move || {
@@ -697,14 +751,23 @@ fn start_thread(sim: &Arc<Sim>, name: &str, f: Box<dyn FnOnce() + Send + 'static
                 }
                 sim2.done.notify_all();
             } else {
-                // Wake joiners, then give the baton away for good.
-                notify_all();
-                sim2.schedule(tid, Call::Finish, "finish", "", 0);
+                // Keep the baton while this OS thread dies: its thread-local destructors (e.g.
+                // crossbeam-epoch's per-thread handle) must not run concurrently with another
+                // simulated thread. The controller joins this thread, then passes the baton on.
+                let mut st = sim2.lock();
+                st.exiting.push(tid);
                 sim2.done.notify_all();
             }
             CTX.with(|c| *c.borrow_mut() = None);
         })
         .expect("spawn OS thread");
+    {
+        let mut st = sim3.lock();
+        while st.os_handles.len() <= tid {
+            st.os_handles.push(None);
+        }
+        st.os_handles[tid] = Some(h);
+    }
     tid
 }
 
@@ -778,6 +841,8 @@ where
             pct_low: 1000,
             live: 0,
             passthrough: false,
+            os_handles: Vec::new(),
+            exiting: Vec::new(),
         }),
         done: Condvar::new(),
     });
@@ -788,8 +853,33 @@ where
         st.threads[0].cv.notify_all();
     }
     let mut st = sim.lock();
-    while st.live > 0 {
+    loop {
+        if let Some(tid) = st.exiting.pop() {
+            let h = st.os_handles.get_mut(tid).and_then(|h| h.take());
+            drop(st);
+            if let Some(h) = h {
+                let _ = h.join();
+            }
+            st = sim.lock();
+            sim.finish_and_handoff(&mut st, tid);
+            continue;
+        }
+        if st.live == 0 {
+            break;
+        }
         st = sim.done.wait(st).unwrap_or_else(|e| e.into_inner());
+    }
+    // Wait for every remaining OS thread to be really gone (aborted runs).
+    loop {
+        let hs: Vec<std::thread::JoinHandle<()>> = st.os_handles.iter_mut().filter_map(|h| h.take()).collect();
+        if hs.is_empty() {
+            break;
+        }
+        drop(st);
+        for h in hs {
+            let _ = h.join();
+        }
+        st = sim.lock();
     }
     let end = st.aborted.clone().unwrap_or(End::Completed);
     let unused = st
